@@ -79,6 +79,24 @@ fn fn_tagged() -> FnDef {
     }
 }
 
+fn fn_rotate() -> FnDef {
+    // pair accumulator rotated with a parallel tuple assignment whose second component reads a name the first re-binds:
+    // let (a, b): (u8, u8) = acc;  let (a, b): (u8, u8) = (b, jet::xor_8(a, e));  (a, b)
+    let pair = Ty::tup(vec![Ty::U(8), Ty::U(8)]);
+    FnDef {
+        name: "rotate".into(),
+        params: vec![("e".into(), Ty::U(8)), ("acc".into(), pair.clone())],
+        ret: Some(pair.clone()),
+        body: (
+            vec![
+                let_(Pat::Tuple(vec![Pat::id("a"), Pat::id("b")]), pair.clone(), var("acc")),
+                let_(Pat::Tuple(vec![Pat::id("a"), Pat::id("b")]), pair.clone(), Expr::Tuple(vec![var("b"), jet("xor_8", vec![jet("left_rotate_8", vec![dec(1), var("a")]), var("e")])])),
+            ],
+            Some(Box::new(Expr::Tuple(vec![var("a"), var("b")]))),
+        ),
+    }
+}
+
 fn fn_opt() -> FnDef {
     FnDef {
         name: "hopt".into(),
@@ -101,6 +119,7 @@ fn instance(c: &Case) -> (FnDef, Ty, Ty, Val, Vec<Val>) {
         }
         "hash" => (fn_hash(), Ty::U(8), Ty::U(64), Val::u(64, 7), (0..k).map(|i| Val::u(8, ((7 * i + 3) % 251) as u128)).collect()),
         "tagged" => (fn_tagged(), Ty::tup(vec![Ty::U(1), Ty::U(8)]), Ty::U(8), Val::u(8, 0), (0..k).map(|i| Val::Tuple(vec![Val::u(1, (i & 1) as u128), Val::u(8, i as u128)])).collect()),
+        "rotate" => (fn_rotate(), Ty::U(8), Ty::tup(vec![Ty::U(8), Ty::U(8)]), Val::Tuple(vec![Val::u(8, 1), Val::u(8, 2)]), (0..k).map(|i| Val::u(8, ((11 * i + 5) % 251) as u128)).collect()),
         "opt" => (fn_opt(), Ty::opt(Ty::U(8)), Ty::U(8), Val::u(8, 0x5a), (0..k).map(|i| if i % 3 == 0 { Val::None } else { Val::Some(Box::new(Val::u(8, i as u128))) }).collect()),
         f if f.starts_with("panic@") => {
             let j: usize = f[6..].parse().unwrap();
@@ -133,6 +152,7 @@ fn cases(quick: bool) -> Vec<Case> {
                 }
                 if n <= 256 && (source == "literal" || source == "witness") {
                     funcs.push("hash".into());
+                    funcs.push("rotate".into());
                     if n <= 64 || !quick {
                         funcs.push("tagged".into());
                         funcs.push("opt".into());
@@ -166,7 +186,7 @@ fn cases(quick: bool) -> Vec<Case> {
 pub fn run(rep: &Report) -> i32 {
     let quick = rep.is_quick();
     let cs = cases(quick);
-    rep.set("bounds", json!({"cases": cs.len(), "bounds_N": if quick {"2..256 (all lengths for N<=64, block edges +-1 above)"} else {"2..512 (all lengths for N<=256, block edges +-1 for 512)"}, "sources": ["literal", "witness", "function", "match", "witness-elements (N<=16 quick, <=64 thorough)", "mixed-elements", "nested-literal-elements"], "fold_functions": ["counter", "hash", "tagged", "opt", "panic@j"]}));
+    rep.set("bounds", json!({"cases": cs.len(), "bounds_N": if quick {"2..256 (all lengths for N<=64, block edges +-1 above)"} else {"2..512 (all lengths for N<=256, block edges +-1 for 512)"}, "sources": ["literal", "witness", "function", "match", "witness-elements (N<=16 quick, <=64 thorough)", "mixed-elements", "nested-literal-elements"], "fold_functions": ["counter", "hash", "rotate", "tagged", "opt", "panic@j"]}));
     par_for(&cs, rep, 4, |i, c| {
         drive::DUMMY.with(|env| check_case(rep, c, i, env));
     });
